@@ -12,6 +12,12 @@
 //       SubspaceStateSampler over the nested component at the path, with a SCRIPTED inner sampler installed on that
 //       subspace (setStateSamplerAllocator): the inner sampler records the call it receives and writes the scripted substate
 //       -> `out=<full state> | call=<U|N|G> d=<distance it was given> near=<substate it was given>`   (lock-step)
+//   uint <h|s|c> <lo> <hi> <s0> <s1>
+//       RNG::uniformInt(lo, hi) as coded, on an adversarial draw: the RNG's std::mt19937 is put into the state
+//       (x[0] = s0, x[1] = s1, index 0), so the next uniform01() is a chosen value (e.g. nextafter(1, 0)).
+//       h: the inline function of the header, compiled into this harness; s: DiscreteStateSampler::sampleUniform of a real
+//       DiscreteStateSpace(lo, hi) (the copy compiled into libompl); c: the default sampler of the compound [R^1, discrete]
+//       -> `r=<int> u=<the draw> nc=<…>` (nc is printed by the model only and ignored in the comparison)  (lock-step)
 //   cmps <u|n|g> <dist> <compound space> <near>
 //       decision logic of CompoundStateSampler (allocDefaultStateSampler of a plain compound / SE2 / SE3): a recording
 //       sampler is installed on every DIRECT component; one sampleUniform / sampleUniformNear / sampleGaussian call
@@ -43,6 +49,22 @@
 //       valid-state sampler over the real default sampler and a pseudo-random validity predicate of the state
 //       bits, recorded; -> `iters=<n> succ=<k> badBounds=<k> badLast=<k> nearLast=<k> badPred=<k> badClr=<k> first=<state|->`
 //       (nearLast: the returned state itself was never checked but is equalStates() to one answered `true`)
+// RandomNumbers.h is included first with `private` opened (this translation unit only; the class layout is unchanged), so
+// that the `uint` op can put the std::mt19937 of an RNG into a chosen state and evaluate the REAL inline
+// `uniformInt` / `uniformReal` / `uniDist_` on adversarial draws.  The standard headers it needs are included before.
+#include <algorithm>
+#include <cassert>
+#include <cmath>
+#include <cstdint>
+#include <memory>
+#include <mutex>
+#include <random>
+#include <sstream>
+#include <string>
+#include <vector>
+#define private public
+#include <ompl/util/RandomNumbers.h>
+#undef private
 #include "common/spaces.h"
 #include <ompl/base/SpaceInformation.h>
 #include <ompl/base/ScopedState.h>
@@ -371,6 +393,24 @@ static void safeComputeLocations(const ob::StateSpacePtr &sp)
     sp->computeLocations();
 }
 
+static void setMtState(std::mt19937 &g, unsigned long s0, unsigned long s1)
+{
+    std::stringstream ss;
+    ss << s0 << ' ' << s1;
+    for (int k = 2; k < 624; ++k)
+        ss << " 0";
+    ss << " 0";   // index: the next two outputs are temper(s0), temper(s1), no twist
+    ss >> g;
+}
+
+struct PeekCompoundSamplers : public ob::CompoundStateSampler
+{
+    static std::vector<ob::StateSamplerPtr> &of(ob::CompoundStateSampler &s)
+    {
+        return s.*(&PeekCompoundSamplers::samplers_);
+    }
+};
+
 // per-component recorder of the `cmps` op (leaves the component state as it is)
 class RecordingComponent : public ob::StateSampler
 {
@@ -649,6 +689,61 @@ int main()
                 sub->clearStateSamplerAllocator();
                 sp->freeState(st);
                 sp->freeState(near);
+            }
+            else if (op == "uint")
+            {
+                if (t.size() != 6)
+                    throw vp::ParseError("uint");
+                std::string mode = t[i++];
+                long long lo = vp::needI(t, i), hi = vp::needI(t, i);
+                unsigned long long s0 = vp::needN(t, i), s1 = vp::needN(t, i);
+                if ((mode != "h" && mode != "s" && mode != "c") || s0 >= 4294967296ULL || s1 >= 4294967296ULL ||
+                    lo < -2147483648LL || hi > 2147483647LL || hi < lo)
+                    throw vp::ParseError("uint args");
+                int r = 0;
+                double u = 0.0;
+                if (mode == "h")
+                {
+                    ompl::RNG rng(12345);
+                    setMtState(rng.generator_, s0, s1);
+                    ompl::RNG copy(rng);
+                    u = copy.uniform01();
+                    r = rng.uniformInt((int)lo, (int)hi);
+                }
+                else
+                {
+                    ob::StateSpacePtr sp;
+                    auto disc = std::make_shared<ob::DiscreteStateSpace>((int)lo, (int)hi);
+                    if (mode == "s")
+                        sp = disc;
+                    else
+                    {
+                        auto c = std::make_shared<ob::CompoundStateSpace>();
+                        auto rv = std::make_shared<ob::RealVectorStateSpace>(1);
+                        rv->setBounds(-1.0, 1.0);
+                        c->addSubspace(rv, 1.0);
+                        c->addSubspace(disc, 1.0);
+                        c->lock();
+                        sp = c;
+                    }
+                    auto sampler = sp->allocDefaultStateSampler();
+                    ob::StateSampler *ds = sampler.get();
+                    if (mode == "c")
+                        ds = PeekCompoundSamplers::of(*static_cast<ob::CompoundStateSampler *>(sampler.get()))[1].get();
+                    ompl::RNG &rng = PeekRng::of(*ds);
+                    setMtState(rng.generator_, s0, s1);
+                    ompl::RNG copy(rng);
+                    u = copy.uniform01();
+                    ob::State *st = sp->allocState();
+                    sampler->sampleUniform(st);
+                    const ob::State *dst = mode == "s" ? st : st->as<ob::CompoundState>()->components[1];
+                    r = dst->as<ob::DiscreteStateSpace::StateType>()->value;
+                    // the oracle of the property itself, on the real state
+                    if (sp->satisfiesBounds(st) != (r >= lo && r <= hi))
+                        r = -777777777;   // cannot happen; would show as a disagreement
+                    sp->freeState(st);
+                }
+                std::cout << "r=" << r << " u=" << vp::bits(u) << "\n";
             }
             else if (op == "cmps")
             {
